@@ -9,7 +9,7 @@
 (* alpha + leading zero, alpha + sign).                                    *)
 (***************************************************************************)
 EXTENDS Naturals, Sequences, FiniteSets, TLC
-Symbols == {"alpha", "d0", "d1", "d5", "plus", "a", "Z", "rho", "euro", "phi", "sp", "bsl", "quo", "apo", "adig"}   \* backslash, quote, apostrophe:
+Symbols == {"alpha", "d0", "d1", "d5", "plus", "a", "Z", "rho", "euro", "phi", "sp", "bsl", "quo", "apo", "adig", "ctl"}   \* backslash, quote, apostrophe, a control character (U+0001):
                                                                                  \* characters a printer may be tempted to escape; "adig": a digit that is not ASCII (Arabic-Indic three)
 Digits == {"d0", "d1", "d5"}
 DigitVal(d) == CASE d = "d0" -> 0 [] d = "d1" -> 1 [] d = "d5" -> 5
